@@ -1010,6 +1010,16 @@ def restore_violations(before, after, inv_code, killed, archive_rows, internal=N
     return probs
 
 
+def _intact_archive_of(st):
+    """the archive a restore step was given, if it was given an undamaged one.  (A damaged copy cannot serve
+    as the reference, and the original must not either: GNU tar exits 0 for a tar stream that is cut at a
+    member boundary, so a restore of such a copy legitimately completes with what the stream holds - every
+    listed version recorded, each with its directory - and nothing in Conductor could tell.)"""
+    if st.op.get("corrupt"):
+        return None
+    return getattr(st, "archive_path", None)
+
+
 def check_C12(run):
     V, facts = [], {"nontrivial": [], "reach": {}, "evaluations": 0}
     reach = facts["reach"]
@@ -1018,7 +1028,7 @@ def check_C12(run):
         if inv is None or st.op["op"] != "restore" or st.before is None or st.after is None:
             continue
         for sig, det in restore_violations(st.before, st.after, inv.code, inv.killed, st.archive_info,
-                                           arch_path=getattr(st, "archive_orig_path", None) or getattr(st, "archive_path", None)):
+                                           arch_path=_intact_archive_of(st)):
             V.append(Violation("C12", sig, det, i))
         if st.op.get("tar_killed"):
             reach["tar_child_killed_by_signal"] = reach.get("tar_child_killed_by_signal", 0) + 1
